@@ -225,6 +225,9 @@ func runCase[T any](in input) childResult {
 		<-inner.ready
 		for s := 0; s < in.Steps; s++ {
 			f := mkFill(inner.typ)
+			if r.Chance(1, 5) && xf.MakeUnreversible(f.V) {
+				res.Tags = append(res.Tags, "forced-unreversible-step")
+			}
 			blocking := r.Chance(1, 2)
 			_, serialBefore := d.ViewVersion()
 			errsBefore := wrappedErrs.get()
@@ -320,8 +323,18 @@ func dispatch(in input) childResult {
 		return runCase[Cfg5](in)
 	case 5:
 		return runCase[CfgV1](in)
-	default:
+	case 6:
 		return runCase[CfgV2](in)
+	case 7:
+		return runCase[Cfg6](in)
+	case 8:
+		return runCase[Cfg7](in)
+	case 9:
+		return runCase[Cfg8](in)
+	case 10:
+		return runCase[Cfg9](in)
+	default:
+		return runCase[Cfg10](in)
 	}
 }
 
@@ -430,7 +443,7 @@ func gen(r *coqfmt.Rng, n int, tier string) []json.RawMessage {
 		case 2:
 			inner = 3
 		}
-		b, _ := json.Marshal(input{K: "wrap", State: r.U64(), Type: r.Intn(7), Inner: inner, Steps: 1 + r.Intn(5)})
+		b, _ := json.Marshal(input{K: "wrap", State: r.U64(), Type: r.Intn(12), Inner: inner, Steps: 1 + r.Intn(5)})
 		out = append(out, b)
 	}
 	return out
@@ -444,7 +457,7 @@ func main() {
 	}
 	driver.Main(driver.Engine{
 		Prop: "C20", CoqImport: "Dials.Check.C20Check", CoqRun: "run_cases",
-		Rule: "seven static config types (two with a Verify method that rejects part of the update values: pointer and value receiver) (nesting by value/pointer, embedded value/pointer, alias tags on leaves and structs, sets, maps, []struct, [2]struct, durations, named scalars, TextUnmarshaler) x random defaults x a mangler chain from C10's generator (shipped chains, mixed chains, sub-chains) x inner source: static (1/10), failing Value (1/10), watching whose Watch fails (1/10), watching with 1-5 updates (7/10), each update a random filling of the translated type reported through ReportNewValue or BlockingReportNewValue; the value returned by every (Blocking)ReportNewValue is compared with the model (a blocking report returns the verdict of its own re-stack) and with the natively fed Dials, the View is read immediately after a blocking report returned and again after the update settled; after every step the View is compared with a reference Dials fed the already-unmangled value and with the model (reverse-translate, then stack onto the defaults); non-trivial: watching inner source with >= 2 updates; distinct = distinct PRNG case states; every case runs in a child process",
+		Rule: "twelve static config types (nesting by value and pointer to depth 4, aliases on leaves and struct-typed fields at every level incl. family-specific alias tags, embedded value and pointer structs, []struct / [2]struct / map[string]struct with nested element structs, sets of strings / ints / named strings, named slices and maps, user pointers to scalars / slices / maps, arrays, complex, TextUnmarshaler; two types with a Verify method that rejects part of the update values: pointer and value receiver) (nesting by value/pointer, embedded value/pointer, alias tags on leaves and structs, sets, maps, []struct, [2]struct, durations, named scalars, TextUnmarshaler) x random defaults x a mangler chain from C10's generator (shipped chains, mixed chains, sub-chains) x inner source: static (1/10), failing Value (1/10), watching whose Watch fails (1/10), watching with 1-5 updates (7/10; one update in five is made un-reversible on purpose when the chain allows it: both names of an aliased field set, or an unparsable text, so sequences mix reversible and un-reversible values), each update a random filling of the translated type reported through ReportNewValue or BlockingReportNewValue; the value returned by every (Blocking)ReportNewValue is compared with the model (a blocking report returns the verdict of its own re-stack) and with the natively fed Dials, the View is read immediately after a blocking report returned and again after the update settled; after every step the View is compared with a reference Dials fed the already-unmangled value and with the model (reverse-translate, then stack onto the defaults); non-trivial: watching inner source with >= 2 updates; distinct = distinct PRNG case states; every case runs in a child process",
 		Gen:  gen, Run: run,
 	})
 	if cur != nil {
